@@ -37,6 +37,8 @@
    (no q:enq, no tx:*; after the eval the loop `continue`s, so pq:pop is
    followed by pq:release), then Eval's select on done / EvalTimeout / the
    machine context.
+   KAddP / KEvalP: the same goroutines additionally scheduled at [pq:popped],
+   between the queue shift and newTransition (needs that point in /repo).
 
    [fixes]: one switch per candidate repair of /repo; [no_fixes] is the code
    as found. Proof-free. *)
@@ -50,15 +52,18 @@ Record fixes := {
   fx_nil_guard : bool;    (* When / WhenArgs return Closed when mustParseStates returns nil *)
   fx_ctx_closed : bool;   (* NewStateCtx returns a cancelled context while disposing (not context.TODO()) *)
   fx_ctx_watch : bool;    (* the parent context is watched even without a handler binding *)
-  fx_err_guard : bool     (* nothing is sent on errInternal after doDispose closed it (or it is not closed) *)
+  fx_err_guard : bool;    (* nothing is sent on errInternal after doDispose closed it (or it is not closed) *)
+  fx_tx_guard : bool      (* newTransition does not index the nil Time of a disposed machine *)
 }.
 
 Definition no_fixes : fixes :=
   {| fx_close_query := false; fx_recheck := false; fx_nil_guard := false;
-     fx_ctx_closed := false; fx_ctx_watch := false; fx_err_guard := false |}.
+     fx_ctx_closed := false; fx_ctx_watch := false; fx_err_guard := false;
+     fx_tx_guard := false |}.
 Definition all_fixes : fixes :=
   {| fx_close_query := true; fx_recheck := true; fx_nil_guard := true;
-     fx_ctx_closed := true; fx_ctx_watch := true; fx_err_guard := true |}.
+     fx_ctx_closed := true; fx_ctx_watch := true; fx_err_guard := true;
+     fx_tx_guard := true |}.
 
 (* kinds of threads / calls *)
 Inductive kind :=
@@ -79,6 +84,8 @@ Inductive kind :=
   | KNum          (* Tick(B) Clock(nil) ActiveStates([B]) Index1(B): non-zero on a live machine *)
   | KTime         (* Time(nil): guarded by disposed *)
   | KEval         (* Eval(fn): the workload goroutine running an eval through the queue *)
+  | KAddP         (* Add1(C), also scheduled at [pq:popped] (between the queue shift and newTransition) *)
+  | KEvalP        (* Eval(fn), also scheduled at [pq:popped] *)
   | KMut          (* Remove Set Toggle CanAdd CanRemove AddErr: guarded by disposing *)
   | KOther.
 
@@ -115,7 +122,7 @@ Record shared := { dc : dcore; rs : rest }.
 
 Inductive pc :=
   | PStart | PD1 | PD2 | PD3 | PD4 | PChecked
-  | PAEnq | PAEntry | PACas | PALoop | PAPop | PAApplied | PASubs | PARelease | PAReleased
+  | PAEnq | PAEntry | PACas | PALoop | PAPop | PAPopped | PAApplied | PASubs | PARelease | PAReleased
   | PDone.
 
 Record thread := { th_kind : kind; th_pc : pc; th_res : res }.
@@ -197,7 +204,7 @@ Definition eval_res (fx : fixes) (d : dcore) (y : res) : res :=
    processQueue *)
 Definition wl_res (fx : fixes) (d : dcore) (t : thread) (x : res) : res :=
   match th_kind t with
-  | KEval => eval_res fx d (keep t x)
+  | KEval | KEvalP => eval_res fx d (keep t x)
   | _ => keep t x
   end.
 
@@ -237,8 +244,8 @@ Definition api_step (fx : fixes) (d : dcore) (r : rest) (t : thread) : rest * th
   | PStart =>
     match th_kind t with
     | KWhen | KWhenQuery => if d2 then (r, finish t RClosed) else (r, goto t PChecked)
-    | KAdd => if d1 then (r, finish t RCanceled) else (r, goto t PAEnq)
-    | KEval =>
+    | KAdd | KAddP => if d1 then (r, finish t RCanceled) else (r, goto t PAEnq)
+    | KEval | KEvalP =>
       (* Eval's and PrependMut's guards, then the eval mutation is prepended *)
       if d1 then (r, finish t (RBool false))
       else (set_queue r (S (qlen r)) (processing r) (qrunning r), goto t PAEntry)
@@ -273,8 +280,26 @@ Definition api_step (fx : fixes) (d : dcore) (r : rest) (t : thread) : rest * th
             {| th_kind := th_kind t;
                th_pc := if Nat.eqb (qlen r - 1) 0 then PARelease else PAPop;
                th_res := keep t RExecuted |})
+         | KAddP | KEvalP => (set_queue r (qlen r - 1) (processing r) (qrunning r), goto t PAPopped)
          | _ => (set_queue r (qlen r - 1) (processing r) (qrunning r), goto t PAApplied)
          end
+  | PAPopped =>
+    (* [pq:popped]: the mutation is off the queue, the `disposing` guard of the
+       loop is behind *)
+    match th_kind t with
+    | KEvalP =>
+      (r, {| th_kind := th_kind t;
+             th_pc := if Nat.eqb (qlen r) 0 then PARelease else PAPop;
+             th_res := keep t RExecuted |})
+    | _ =>
+      (* newTransition: Time(nil) of a disposed machine is nil and is indexed
+         per target state: index out of range in the mutating goroutine
+         (queueProcessing stays set); while only disposing the transition is
+         built but not accepted: no tx:applied, no tx:subs *)
+      if d2 then (r, finish t (if fx_tx_guard fx then keep t RCanceled else RPanic))
+      else if d1 then (r, {| th_kind := th_kind t; th_pc := PALoop; th_res := keep t RCanceled |})
+      else (r, goto t PAApplied)
+    end
   | PAApplied =>
     (* the rest of emitEvents: the transition's result is Is(target), false
        while disposing; with a handler binding the final handlers report
@@ -394,8 +419,8 @@ Definition neutral (k : kind) (x : res) : bool :=
   match k, x with
   | (KWhen | KWhenQuery | KWhenNot | KWhenTime | KWhenTicks | KWhenArgs | KWhenQueue
      | KWhenQueueEnds | KStateCtx), RClosed => true
-  | (KAdd | KMut), RCanceled => true
-  | (KFlag | KFalse | KEval), RBool false => true
+  | (KAdd | KAddP | KMut), RCanceled => true
+  | (KFlag | KFalse | KEval | KEvalP), RBool false => true
   | (KNum | KTime), RZero => true
   | (KDispose | KDisposeNF | KOther), RVoid => true
   | _, _ => false
